@@ -81,6 +81,8 @@ type instance struct {
 	holdAt  int                               // block right before operation number holdAt until released; -1 = never
 	held    bool
 	subs    map[int64]*subCtx // submissions in progress, by submitter goroutine
+	realB   *ctlog.LocalBackend  // -real: the operations are ALSO performed on a real local directory ...
+	realL   *ctlog.SQLiteBackend // ... and a real SQLite lock database (one connection per instance)
 	nfaults int           // operations that were made to fail so far
 	seqGid  int64         // goroutine id of this instance's RunSequencer (0 before it started)
 	holdIssuer bool       // stop the next submitter inside its issuer upload until cleared
@@ -319,6 +321,17 @@ func (b simBackend) Upload(ctx context.Context, key string, data []byte, opts *c
 		conflict = true
 		ok = false
 	}
+	if b.in.realB != nil && f != fFail {
+		// the real LocalBackend must behave as the simulated store specifies (C13's contract, which the
+		// sequencer properties assume)
+		rerr := b.in.realB.Upload(ctx, key, data, opts)
+		w.mon.checks["real.upload"]++
+		if (rerr != nil) != conflict {
+			w.mon.fail("C03 real LocalBackend.Upload(%s, %d bytes, immutable=%v) answered %v where the object-store contract says conflict=%v (C13)", key, len(data), imm, rerr, conflict)
+			conflict = rerr != nil
+			ok = ok && !conflict
+		}
+	}
 	if !conflict && f != fFail {
 		w.objects[key] = object{bytes.Clone(data), imm}
 		w.mon.noteUpload(key, data)
@@ -353,6 +366,15 @@ func (b simBackend) Fetch(ctx context.Context, key string) ([]byte, error) {
 		return nil, errDead
 	}
 	o, exists := w.objects[key]
+	if b.in.realB != nil && f == fOK {
+		rd, rerr := b.in.realB.Fetch(ctx, key)
+		w.mon.checks["real.fetch"]++
+		if (rerr == nil) != exists || (exists && !bytes.Equal(rd, o.data)) {
+			w.mon.fail("C03 real LocalBackend.Fetch(%s) answered (%d bytes, %v) where the object-store contract says exists=%v (%d bytes) (C13)", key, len(rd), rerr, exists, len(o.data))
+			exists = rerr == nil
+			o = object{rd, o.imm}
+		}
+	}
 	ok := f == fOK && exists
 	w.logf(b.in, "> op %d fetch %s - - %s %v", b.in.id, key, f, ok)
 	if f != fOK {
@@ -375,6 +397,9 @@ func (b simBackend) Discard(ctx context.Context, key string) error {
 	w.mon.discarded(w, key)
 	if f != fFail {
 		delete(w.objects, key)
+		if b.in.realB != nil {
+			b.in.realB.Discard(ctx, key)
+		}
 	}
 	w.logf(b.in, "> op %d discard %s - - %s %v", b.in.id, key, f, f == fOK)
 	if f != fOK {
@@ -392,6 +417,7 @@ type simLock struct{ in *instance }
 type lockedCP struct {
 	id   [32]byte
 	data []byte
+	real ctlog.LockedCheckpoint // -real: the handle of the real SQLite backend
 }
 
 func (c *lockedCP) Bytes() []byte { return c.data }
@@ -405,6 +431,15 @@ func (l simLock) Fetch(ctx context.Context, logID [32]byte) (ctlog.LockedCheckpo
 		return nil, errDead
 	}
 	data, exists := w.lock[logID]
+	var rh ctlog.LockedCheckpoint
+	if l.in.realL != nil && f == fOK {
+		var rerr error
+		rh, rerr = l.in.realL.Fetch(ctx, logID)
+		w.mon.checks["real.lockfetch"]++
+		if (rerr == nil) != exists || (exists && !bytes.Equal(rh.Bytes(), data)) || (rerr != nil && !errors.Is(rerr, ctlog.ErrLogNotFound)) {
+			w.mon.fail("C01 real SQLite lock backend Fetch answered %v where the register holds exists=%v (C05)", rerr, exists)
+		}
+	}
 	w.logf(l.in, "> op %d lockfetch - - - %s %v", l.in.id, f, f == fOK && exists)
 	if f != fOK {
 		return nil, errInjected
@@ -412,7 +447,7 @@ func (l simLock) Fetch(ctx context.Context, logID [32]byte) (ctlog.LockedCheckpo
 	if !exists {
 		return nil, ctlog.ErrLogNotFound
 	}
-	return &lockedCP{logID, bytes.Clone(data)}, nil
+	return &lockedCP{logID, bytes.Clone(data), rh}, nil
 }
 
 func (l simLock) Replace(ctx context.Context, old ctlog.LockedCheckpoint, new []byte) (ctlog.LockedCheckpoint, error) {
@@ -426,6 +461,17 @@ func (l simLock) Replace(ctx context.Context, old ctlog.LockedCheckpoint, new []
 	o := old.(*lockedCP)
 	cur, exists := w.lock[o.id]
 	can := exists && bytes.Equal(cur, o.data)
+	var rh ctlog.LockedCheckpoint
+	if l.in.realL != nil && f != fFail && o.real != nil {
+		var rerr error
+		rh, rerr = l.in.realL.Replace(ctx, o.real, new)
+		w.mon.checks["real.lockreplace"]++
+		if (rerr == nil) != can {
+			w.mon.fail("C01 real SQLite lock backend Replace answered %v where a compare-and-swap register answers success=%v (C05): a stale instance is %s", rerr, can,
+				map[bool]string{true: "told its checkpoint was committed", false: "refused although it holds the current value"}[rerr == nil])
+			can = rerr == nil // go on as the real log would
+		}
+	}
 	if can && f != fFail {
 		w.lock[o.id] = bytes.Clone(new)
 		w.mon.committed(w, new)
@@ -437,7 +483,7 @@ func (l simLock) Replace(ctx context.Context, old ctlog.LockedCheckpoint, new []
 	if !can {
 		return nil, errors.New("checkpoint changed")
 	}
-	return &lockedCP{o.id, bytes.Clone(new)}, nil
+	return &lockedCP{o.id, bytes.Clone(new), rh}, nil
 }
 
 func (l simLock) Create(ctx context.Context, logID [32]byte, new []byte) error {
@@ -450,6 +496,14 @@ func (l simLock) Create(ctx context.Context, logID [32]byte, new []byte) error {
 	}
 	_, exists := w.lock[logID]
 	can := !exists
+	if l.in.realL != nil && f != fFail {
+		rerr := l.in.realL.Create(ctx, logID, new)
+		w.mon.checks["real.lockcreate"]++
+		if (rerr == nil) != can {
+			w.mon.fail("C06 real SQLite lock backend Create answered %v where the register says created=%v (C05)", rerr, can)
+			can = rerr == nil
+		}
+	}
 	if can && f != fFail {
 		w.lock[logID] = bytes.Clone(new)
 		w.mon.committed(w, new)
